@@ -232,7 +232,7 @@ func (env *SpecEnv) evalIndex(e *SExpr) Val {
 	case *types.Basic:
 		if isString(base.Ty) {
 			i := fc.toIdx(env.eval(e.Args[1]))
-			return Val{T: app("str.at", base.T, i), Ty: tUint8}
+			return Val{T: app("gs.at", base.T, i), Ty: tUint8}
 		}
 	case *types.Pointer:
 		if at, ok := t.Elem().Underlying().(*types.Array); ok {
@@ -378,7 +378,7 @@ func (env *SpecEnv) evalCall(e *SExpr) Val {
 			return fc.constVal(constant.MakeInt64(t.Len()), tInt)
 		case *types.Basic:
 			if isString(v.Ty) {
-				return Val{T: app("str.len", v.T), Ty: tInt}
+				return Val{T: app("gs.len", v.T), Ty: tInt}
 			}
 		case *types.Map:
 			ck := "MC$" + fc.typeName(t.Key()) + "$" + fc.typeName(t.Elem())
